@@ -3,7 +3,7 @@ package main
 // component "essink" (C14): the real elasticsearch node over a scripted bulk service.
 // input: "cfg <batchSize> <maxRetries> <workers> <waitMs> <mode> ; d <id> <script> | w | p <ms> ; ..."
 //   script: verdict per attempt of that document, o = 2xx, r = retryable error, m = mapping conflict (last one repeats)
-//   mode:   normal | shutdown (Shutdown right after the last submission) | whole:<k> (bulk call k fails as a whole)
+//   mode:   normal | linger (normal, observed for 5.5 s after the last answer) | shutdown (Shutdown right after the last submission) | whole:<k> (bulk call k fails as a whole)
 //           | late:<k> (bulk call k answers after the per-request deadline)
 
 import (
@@ -34,6 +34,8 @@ func genEsSink(r *rng, n int, tier string, emit func(string)) {
 		"cfg 10 2 1 5000 shutdown ; d 1 o ; d 2 o ; d 3 o",
 		"cfg 2 2 1 5000 shutdown ; d 1 o ; d 2 r ; d 3 o ; d 4 o ; d 5 o",
 		"cfg 3 1 1 20 late:0 ; d 1 o ; d 2 o ; d 3 o",
+		// nothing is sent or answered again after a document has used up its retries (watched for 5.5 s after the last answer)
+		"cfg 2 1 1 20 linger ; d 1 rr ; d 2 o ; d 3 rm",
 		// a refused bulk request (5 s back-off) must not use up the per-document retry budget
 		"cfg 2 1 1 20 whole:0 ; d 1 o ; d 2 ro ; d 3 m",
 	} {
@@ -83,18 +85,18 @@ func genEsSink(r *rng, n int, tier string, emit func(string)) {
 }
 
 type esScript struct {
-	mu         sync.Mutex
-	scripts    map[string]string
-	scriptIdx  map[string]int
-	sendCount  map[string]int
-	firstSeen  map[string]time.Time
-	calls      int
-	inflight   int
-	maxInfl    int
-	maxBatch   int
-	altered    int
-	wholeCall  int
-	lateCall   int
+	mu        sync.Mutex
+	scripts   map[string]string
+	scriptIdx map[string]int
+	sendCount map[string]int
+	firstSeen map[string]time.Time
+	calls     int
+	inflight  int
+	maxInfl   int
+	maxBatch  int
+	altered   int
+	wholeCall int
+	lateCall  int
 }
 
 type scriptedBulk struct {
@@ -294,8 +296,8 @@ func execEsSink(input string) string {
 		}
 		time.Sleep(3 * time.Millisecond)
 	}
-	if svc.lateCall >= 0 {
-		time.Sleep(5500 * time.Millisecond) // a re-run of the late batch would show up after its back-off
+	if svc.lateCall >= 0 || mode == "linger" {
+		time.Sleep(5500 * time.Millisecond) // a re-run of an already answered batch would show up after its 5 s back-off
 	} else {
 		time.Sleep(15 * time.Millisecond)
 	}
